@@ -807,10 +807,10 @@ class Interp:
         sa, sb = self.slot_key_side(a), self.slot_key_side(b)
         if sa is not None and sb is not None and sa[0] != sb[0]:
             # keys of two containers are compared: the container being scanned is the one whose
-            # slots were sliced most recently; the other side is the probe
+            # slots were sliced (or, in an index loop, addressed) most recently; the other side is the probe
             scanned = None
             for e in reversed(st.events):
-                if e[0] == 'slice' and e[1] in (sa[0], sb[0]):
+                if e[0] in ('slice', 'at') and e[1] in (sa[0], sb[0]):
                     scanned = e[1]
                     break
             if scanned == sa[0]:
@@ -831,12 +831,12 @@ class Interp:
         if ex is not None and tag_eq(z, ex[0], other):
             lo, hi = ex[1], ex[2]
             if z.entails_eq(idx, hi):
-                ms.examined = (other, lo, slots.plus(st, idx, 1))
+                ms.examined = (other, lo, slots.plus(st, idx, 1)) + tuple(ex[3:])
                 return
             if z.entails_le(lo, idx) and z.entails_lt(idx, hi):
                 return
         if z.entails_eq(idx, 0):
-            ms.examined = (other, 0, slots.plus(st, idx, 1))
+            ms.examined = (other, 0, slots.plus(st, idx, 1), st.loops)     # (+ the loops it was begun in)
         else:
             st.log('scan-lost', mid, idx, ex, other, ('keyeq', ex is not None and tag_eq(z, ex[0], other)), ('idx-hi', ex and z.d.get((idx, ex[2])), ex and z.d.get((ex[2], idx))))
             ms.examined = None
